@@ -628,6 +628,12 @@ func (info *Info) FindLookups(lang language.Tag, includeFeature map[string]bool)
 	for tag := range info.ScriptList {
 		tags = append(tags, tag)
 	}
+	// The matcher's answer depends on the order of the tags (ties between equally
+	// good matches, and the first tag is the fallback).  Map iteration order is
+	// random, so fix the order to make the result a function of the arguments.
+	sort.Slice(tags, func(i, j int) bool {
+		return tags[i].String() < tags[j].String()
+	})
 	// TODO(voss): make sure a sensible default comes first.
 	//     Maybe this could be based on the number of features supported?
 
